@@ -1,5 +1,6 @@
 CONSTANTS
   PinnedEnv = TRUE
+  Accumulate = FALSE
   PinnedVars = FALSE
 INIT Init
 NEXT Next
